@@ -5,105 +5,7 @@
 //   case: {"id":N,"dir":"/abs/case/dir","xsl":"main.xsl","xml":"in.xml","params":{name:"expr"},
 //          "trace":"none"|"templates"|"all","select":true|false,"reuse":false}
 // events: {"e":"Reset","id":N}  {"e":"T",...}  {"e":"S",...}  {"e":"Done","id":N,"status":s,"msg":"..","tree":[...]}
-#include "common.hpp"
-#include "proj.hpp"
-#include <sstream>
-#include <xalanc/PlatformSupport/FormatterListener.hpp>
-#include <xalanc/PlatformSupport/AttributeListImpl.hpp>
-#include <xalanc/XSLT/ElemTemplateElement.hpp>
-#include <xalanc/XSLT/ElemTemplate.hpp>
-#include <xalanc/XSLT/GenerateEvent.hpp>
-#include <xalanc/XSLT/SelectionEvent.hpp>
-#include <xalanc/XSLT/StylesheetExecutionContext.hpp>
-#include <xalanc/XSLT/StylesheetConstructionContext.hpp>
-#include <xalanc/XSLT/TraceListener.hpp>
-#include <xalanc/XSLT/TracerEvent.hpp>
-#include <xalanc/XSLT/XSLTInputSource.hpp>
-#include <xalanc/XSLT/XSLTResultTarget.hpp>
-#include <xalanc/XalanTransformer/XalanCompiledStylesheet.hpp>
-#include <xalanc/XalanTransformer/XalanParsedSource.hpp>
-#include <xalanc/XalanTransformer/XalanTransformer.hpp>
-#include <xercesc/sax/AttributeList.hpp>
-
-using namespace xv;
-
-// ---- result tree recorder ------------------------------------------------------------------------
-struct Recorder : public FormatterListener {
-    struct N { std::string kind, name; std::vector<std::pair<std::string, std::string>> attrs; std::string text; std::vector<N> kids; };
-    N root; std::vector<N*> stack; bool sawEndDoc = false; int startDocs = 0;
-    Recorder() : FormatterListener(OUTPUT_METHOD_NONE) { root.kind = "root"; stack.push_back(&root); }
-    void addText(const std::string& kind, const XMLCh* c, size_type n) {
-        N& p = *stack.back();
-        if (!p.kids.empty() && p.kids.back().kind == kind) { p.kids.back().text += toUtf8(c, n); return; }
-        N t; t.kind = kind; t.text = toUtf8(c, n); p.kids.push_back(t);
-    }
-    void setDocumentLocator(const Locator* const) override {}
-    void startDocument() override { ++startDocs; }
-    void endDocument() override { sawEndDoc = true; }
-    void startElement(const XMLCh* const name, AttributeListType& attrs) override {
-        N e; e.kind = "elem"; e.name = toUtf8(name, length(name));
-        for (XalanSize_t i = 0; i < attrs.getLength(); ++i)
-            e.attrs.emplace_back(toUtf8(attrs.getName(i), length(attrs.getName(i))), toUtf8(attrs.getValue(i), length(attrs.getValue(i))));
-        N& p = *stack.back(); p.kids.push_back(e); stack.push_back(&p.kids.back());
-    }
-    void endElement(const XMLCh* const) override { if (stack.size() > 1) stack.pop_back(); }
-    void characters(const XMLCh* const c, const size_type n) override { if (n) addText("text", c, n); }
-    void charactersRaw(const XMLCh* const c, const size_type n) override { if (n) addText("raw", c, n); }
-    void entityReference(const XMLCh* const name) override { N t; t.kind = "entref"; t.name = toUtf8(name, length(name)); stack.back()->kids.push_back(t); }
-    void ignorableWhitespace(const XMLCh* const c, const size_type n) override { if (n) addText("text", c, n); }
-    void processingInstruction(const XMLCh* const target, const XMLCh* const data) override {
-        N t; t.kind = "pi"; t.name = toUtf8(target, length(target)); t.text = toUtf8(data, length(data)); stack.back()->kids.push_back(t); }
-    void resetDocument() override {}
-    void comment(const XMLCh* const data) override { N t; t.kind = "comment"; t.text = toUtf8(data, length(data)); stack.back()->kids.push_back(t); }
-    void cdata(const XMLCh* const c, const size_type n) override { if (n) addText("text", c, n); }
-
-    static void json(const N& n, std::string& o) {
-        if (n.kind == "elem") {
-            o += "{\"k\":\"elem\",\"qn\":" + jstr(n.name) + ",\"a\":[";
-            for (size_t i = 0; i < n.attrs.size(); ++i) { if (i) o += ","; o += "[" + jstr(n.attrs[i].first) + "," + jstr(n.attrs[i].second) + "]"; }
-            o += "],\"c\":[";
-            for (size_t i = 0; i < n.kids.size(); ++i) { if (i) o += ","; json(n.kids[i], o); }
-            o += "]}";
-        } else if (n.kind == "pi") o += "{\"k\":\"pi\",\"l\":" + jstr(n.name) + ",\"v\":" + jstr(n.text) + "}";
-        else if (n.kind == "entref") o += "{\"k\":\"entref\",\"l\":" + jstr(n.name) + "}";
-        else o += "{\"k\":" + jstr(n.kind) + ",\"v\":" + jstr(n.text) + "}";
-    }
-    std::string treeJson() const { std::string o = "["; for (size_t i = 0; i < root.kids.size(); ++i) { if (i) o += ","; json(root.kids[i], o); } return o + "]"; }
-};
-
-// ---- trace listener -------------------------------------------------------------------------------
-struct Tracer : public TraceListener {
-    NodeIds& ids; std::string mode; bool select; std::string out;
-    Tracer(NodeIds& i, const std::string& m, bool s) : ids(i), mode(m), select(s) {}
-    void trace(const TracerEvent& ev) override {
-        if (mode == "none") return;
-        const ElemTemplateElement& el = ev.m_styleNode;
-        const int tok = el.getXSLToken();
-        if (mode == "templates" && tok != StylesheetConstructionContext::ELEMNAME_TEMPLATE) return;
-        const XalanNode* n = ev.m_executionContext.getCurrentNode();
-        out += "{\"e\":\"T\",\"el\":" + jstr(toUtf8(el.getElementName())) + ",\"line\":" + std::to_string((long)el.getLineNumber()) +
-               ",\"col\":" + std::to_string((long)el.getColumnNumber()) + ",\"node\":" + nodeRefAuto(n, ids) + "}\n";
-    }
-    void selected(const SelectionEvent& ev) override {
-        if (!select) return;
-        const ElemTemplateElement& el = ev.m_styleNode;
-        StylesheetExecutionContext& ctx = const_cast<StylesheetExecutionContext&>(ev.m_executionContext);
-        std::string val;
-        switch (ev.m_type) {
-        case SelectionEvent::eBoolean: val = std::string("{\"t\":\"bool\",\"v\":") + (ev.m_boolean ? "true" : "false") + "}"; break;
-        case SelectionEvent::eNodeSet: val = "{\"t\":\"ns\",\"v\":" + nodesJsonAuto(*ev.m_nodeList, ids) + "}"; break;
-        case SelectionEvent::eUnknown: val = valueJson(ev.m_selection, ctx, ids); break;
-        default: val = "{\"t\":\"none\",\"v\":0}"; break;
-        }
-        out += "{\"e\":\"S\",\"el\":" + jstr(toUtf8(el.getElementName())) + ",\"line\":" + std::to_string((long)el.getLineNumber()) +
-               ",\"attr\":" + jstr(toUtf8(ev.m_attributeName)) + ",\"node\":" + nodeRefAuto(ev.m_sourceNode, ids) + ",\"val\":" + val;
-        if (ev.m_type == SelectionEvent::eNodeSet || (ev.m_type == SelectionEvent::eUnknown && !ev.m_selection.null() && ev.m_selection->getType() == XObject::eTypeNodeSet)) {
-            // delivered order is part of the observation
-        }
-        out += "}\n";
-    }
-    void generated(const GenerateEvent&) override {}
-};
+#include "xsltrec.hpp"
 
 int main(int argc, char** argv) {
     if (argc < 2) { fprintf(stderr, "usage: %s cases.ndjson\n", argv[0]); return 2; }
